@@ -834,3 +834,73 @@ class C07(Base):
         for _ in range(k):
             out.append(Case("o.euler.product", euler_to_quat_inputs(rng), family="oracle"))
         return out
+
+
+def quat_rot_cols(q):
+    """columns of the rotation matrix of unit quaternion q=[w,x,y,z] (each a list of 3)"""
+    m = quat_to_m3(q)
+    return [m[0:3], m[3:6], m[6:9]]
+
+
+def exact_frame(rng):
+    """(eye, dir, up) with rational |dir| and rational |normalize(dir) x up| (all normalisations exact)"""
+    c = quat_rot_cols(rng.unit_quat())
+    k = rng.rat_nz()
+    d = [k * x for x in c[2]]
+    a, b = rng.rat_nz(), rng.rat()
+    up = [a * c[1][i] + b * c[2][i] for i in range(3)]
+    eye = rng.distinct(3)
+    return eye, d, up
+
+
+@prop("C09")
+class C09(Base):
+    title = "look_at / look_to build rigid view transforms with the documented handedness"
+    design_ref = "§6 C09"
+    ops = ["m2.look_at", "m2.look_at_stable", "b2.look_at", "b2.look_at_stable", "m3.look_to_lh", "m3.look_to_rh",
+           "m3.look_at_dep", "m4.look_to_rh", "m4.look_to_lh", "m4.look_at_rh", "m4.look_at_lh", "m4.look_at_dep",
+           "m4.look_at_dir_dep", "m3.tlook_at2", "m3.tlook_at2_lh", "m3.tlook_at2_rh", "m3.tlook_at", "m3.tlook_at_lh",
+           "m3.tlook_at_rh", "m4.tlook_at", "m4.tlook_at_lh", "m4.tlook_at_rh", "q.look_at", "b3.look_at",
+           "dq.look_at", "dq.look_at_lh", "dq.look_at_rh", "db3.look_at", "db3.look_at_lh", "db3.look_at_rh",
+           "db2.look_at", "db2.look_at_lh", "db2.look_at_rh"]
+    oracle_ops = ["o.look.rigid", "o.look.2d"]
+    native_args = float_args("c09")
+    level_note = Base.level_note + FLOAT_NOTE
+
+    def families(self, rng, tier):
+        out = []
+        reps = 6 if tier == "quick" else 200
+        for _ in range(reps):
+            eye, d, up = exact_frame(rng)
+            center = [eye[i] + d[i] for i in range(3)]
+            for op in ("m3.look_to_lh", "m3.look_to_rh", "m3.look_at_dep", "q.look_at", "b3.look_at"):
+                out.append(Case(op, d + up, family="exact-frame"))
+            for op in ("m4.look_to_rh", "m4.look_to_lh", "m4.look_at_dir_dep"):
+                out.append(Case(op, eye + d + up, family="exact-frame"))
+            for op in ("m4.look_at_rh", "m4.look_at_lh", "m4.look_at_dep", "m3.tlook_at", "m3.tlook_at_lh", "m3.tlook_at_rh",
+                       "m4.tlook_at", "m4.tlook_at_lh", "m4.tlook_at_rh", "dq.look_at", "dq.look_at_lh", "dq.look_at_rh",
+                       "db3.look_at", "db3.look_at_lh", "db3.look_at_rh"):
+                out.append(Case(op, eye + center + up, family="exact-frame"))
+            # 2-D: 3-4-5 style directions, up on either side (drives the flip)
+            d2 = pyth_vectors(rng, 2)
+            for up2 in ([-d2[1], d2[0]], [d2[1], -d2[0]], rng.distinct(2)):
+                out.append(Case("m2.look_at", d2 + up2, family="2d-flip"))
+                out.append(Case("b2.look_at", d2 + up2, family="2d-flip"))
+                e2 = rng.distinct(2)
+                for op in ("m3.tlook_at2", "m3.tlook_at2_lh", "m3.tlook_at2_rh", "db2.look_at", "db2.look_at_lh", "db2.look_at_rh"):
+                    out.append(Case(op, e2 + [e2[0] + d2[0], e2[1] + d2[1]] + up2, family="2d-flip"))
+            # up exactly on the line of dir (flip boundary: >= in the code)
+            out.append(Case("m2.look_at", d2 + [2 * d2[0], 2 * d2[1]], family="2d-flip-boundary"))
+            out.append(Case("m2.look_at_stable", d2, [0], family="2d"))
+            out.append(Case("m2.look_at_stable", d2, [1], family="2d"))
+        return out
+
+    def oracle_cases(self, rng, tier):
+        out = []
+        k = 25 if tier == "quick" else 1200
+        for _ in range(k):
+            eye, d, up = exact_frame(rng)
+            out.append(Case("o.look.rigid", eye + d + up, family="oracle"))
+            d2 = pyth_vectors(rng, 2)
+            out.append(Case("o.look.2d", d2 + rng.distinct(2), family="oracle"))
+        return out
